@@ -139,9 +139,18 @@ Definition read_field (md : mdesc) (fd : fdesc) (wt : N) (d : decoder) (fs : lis
           | LGo (key, val, al) d2 =>
               if negb (doff d2 =? stop)%nat then LStop UErr else
               let k := match key with Some k => k | None => zero_of kk end in
-              let v := match val with Some v => v | None => zero_of vk end in
               let cur := match lookup_field n fs with GMap kvs => kvs | _ => [] end in
-              LGo (set_field n (GMap (map_set k v cur)) fs, al) d2
+              match val, vk with
+              | Some v, _ => LGo (set_field n (GMap (map_set k v cur)) fs, al) d2
+              | None, FMsg t =>
+                  (* entryValue = &T{}; when T has required fields: csproto.Unmarshal(nil, entryValue), whose error
+                     is returned (for a T without required fields Unmarshal of no bytes is the empty message) *)
+                  match unmarshal_msg t [] with
+                  | UOk v _ => LGo (set_field n (GMap (map_set k v cur)) fs, al) d2
+                  | other => LStop other
+                  end
+              | None, _ => LGo (set_field n (GMap (map_set k (zero_of vk) cur)) fs, al) d2
+              end
           end
       end
   end.
